@@ -55,19 +55,28 @@ MULTI_SIZES = [
 
 def tier_params(tier):
     t = tier == "thorough"
+    full = [(w, lay) for w in WEIGHTS for lay in LAYOUTS]
     return {
-        "sizes": [100, 120, 150, 200, 250, 320, 400] if t else [100, 150, 250, 400],
+        "sizes": [100, 120, 150, 200, 280, 400] if t else [100, 150, 250, 400],
         "sds": [0.01, 0.02, 0.05, 0.08, 0.1] if t else [0.01, 0.05, 0.1],
-        "arr_k": 4 if t else 1,
+        "multi_sds": [0.01, 0.05, 0.1],
+        "arr_k": 3 if t else 1,  # affine multipliers (x 3 offsets, + block-reversed + interleaved each)
+        "arr_km": 9 if t else 3,  # modular-inverse arrangements
+        # (weight pattern, layout): the full product, or every pair that differs from (one, uniform) in <= 1 dimension
+        "combos": full if t else [c for c in full if c[0] == "one" or c[1] == "uniform"],
         "flat_bins": [100, 101, 102, 150, 250, 400, 600] if t else [100, 250, 600],
         "multi_patterns": 3 if t else 1,
-        "multi_arr": ["A0.0", "A1.1", "R0", "I1"] if t else ["A0.0"],
+        "multi_arr": ["A0.0", "R1", "M0", "M4"] if t else ["A0.0", "M0"],
     }
+
+
+def arrangements(p):
+    return NZ.arrangement_names(p["arr_k"], km=p["arr_km"])
 
 
 def describe(tier):
     p = tier_params(tier)
-    names = NZ.arrangement_names(p["arr_k"])
+    names = arrangements(p)
     return {
         "rule": "E1: every profile of the family (step kind x left x right x sd x weight pattern x layout x noise arrangement; "
         "flat controls; 2- and 3-chromosome profiles) is segmented by the real do_segmentation with haar and with hmm-germline "
@@ -75,23 +84,25 @@ def describe(tier):
         "arrangement); non-trivial = the profile contains a step (the detection clauses are exercised, not only the "
         "no-false-breakpoint clause). Exhaustive over the finite noise alphabet only.",
         "bound": {
-            "step": "kinds %s (haar) / %s (hmm-germline) x left,right in %s x sd in %s x weights %s x layout %s x %d arrangements"
-            % (METHOD_KINDS["haar"], METHOD_KINDS["hmm-germline"], p["sizes"], p["sds"], list(WEIGHTS), list(LAYOUTS), len(names)),
+            "step": "kinds %s (haar) / %s (hmm-germline) x left,right in %s x sd in %s x (weights, layout) in %s x %d arrangements"
+            % (METHOD_KINDS["haar"], METHOD_KINDS["hmm-germline"], p["sizes"], p["sds"], [list(c) for c in p["combos"]], len(names)),
             "flat": "bins in %s, one arm; two arms (a 5 Mb gap, each arm >= 100 bins) for >= 250 bins; level 0; same sd, weights, "
             "layouts, arrangements; plus 2 and 3 flat chromosomes" % p["flat_bins"],
             "multi": "2 chromosomes: every ordered pair of kinds; 3 chromosomes: %s; sizes from %d pattern(s) of MULTI_SIZES; "
-            "sd in %s x weights x layouts x arrangement starts %s (chromosome j takes the j-th next arrangement)"
+            "sd in %s x the same (weights, layout) pairs x arrangement starts %s (chromosome j takes the j-th next arrangement)"
             % (
                 "every ordered triple of kinds" if tier == "thorough" else "every ordered triple (hmm-germline), every ordered pair + one derived third kind (haar)",
                 p["multi_patterns"],
-                p["sds"],
+                p["multi_sds"],
                 p["multi_arr"],
             ),
         },
         "alphabet": {
             "noise": "n mid-point normal quantiles sd*Phi^-1((i+1/2)/n) arranged by: " + ", ".join(names),
             "arrangement_rule": "A<j>.<m> = i->(a_j*i+b_m) mod n, a_j = j-th integer >= 0.382 n coprime to n, b = 0, n//3, n//2; "
-            "R<j> = A<j>.0 with blocks of 8 reversed; I<j> = A<j>.0 with its halves interleaved",
+            "R<j> = A<j>.0 with blocks of 8 reversed; I<j> = A<j>.0 with its halves interleaved; M<j> = i->a_j*(i+b)^-1 mod p in the prime "
+            "field just above n (values >= n deleted), a_j = j-th integer >= 0.382 p, b = offset number j mod 3: the only family whose "
+            "window sums fluctuate like independent noise (the affine ones are equidistributed, i.e. smoother than noise)",
             "weights": {"one": "all 1", "alt": "0.5, 1, 0.5, 1, ...", "ramp": "0.5 -> 1 linearly along the chromosome"},
             "layout": {"uniform": "200 bp bins every 1000 bp", "vary": "bin sizes 100/200/300 bp, gaps 500..1500 bp (3-fold)"},
             "levels": KINDS,
@@ -187,7 +198,7 @@ def cases(tier):
                     yield {"check": "step", "method": method, "kind": kind, "left": left, "right": right, "sd": sd}
     # two and three stepped chromosomes, each with its own kind, sizes and noise arrangement
     for pat in range(p["multi_patterns"]):
-        for sd in p["sds"]:
+        for sd in p["multi_sds"]:
             for method in METHODS:
                 kinds = METHOD_KINDS[method]
                 for k1, k2 in itertools.product(kinds, repeat=2):
@@ -205,7 +216,7 @@ def cases(tier):
 
 def run(case, ctx):
     p = tier_params(ctx.tier)
-    names = NZ.arrangement_names(p["arr_k"])
+    names = arrangements(p)
     kind = case["check"]
     method, sd = case["method"], case["sd"]
     if kind == "flat":
@@ -225,13 +236,12 @@ def run(case, ctx):
     else:
         raise ValueError(kind)
     for arr in starts:
-        for wpat in WEIGHTS:
-            for layout in LAYOUTS:
-                chroms = [dict(s, arr=next_arrangement(names, arr, j)) for j, s in enumerate(specs)]
-                run_one(ctx, method, chroms, sd, wpat, layout, {"arrangement": arr, "weights": wpat, "layout": layout})
+        for wpat, layout in p["combos"]:
+            chroms = [dict(s, arr=next_arrangement(names, arr, j)) for j, s in enumerate(specs)]
+            run_one(ctx, method, chroms, sd, wpat, layout, {"arrangement": arr, "weights": wpat, "layout": layout})
     ctx.sample(
         kind + "/" + method,
-        {"case": case, "chromosomes": [{k: v for k, v in s.items()} for s in specs], "arrangements": starts, "weights": WEIGHTS, "layouts": LAYOUTS},
+        {"case": case, "chromosomes": [{k: v for k, v in s.items()} for s in specs], "arrangements": starts, "weights_layouts": p["combos"]},
     )
 
 
@@ -249,7 +259,7 @@ def run_one(ctx, method, chroms, sd, wpat, layout, sub):
     ctx.stratum("layout-" + layout)
     ctx.stratum("sd-%g" % sd)
     for c in chroms:
-        ctx.stratum("arrangement-" + {"A": "affine", "R": "block-reversed", "I": "interleaved"}[c["arr"][0]])
+        ctx.stratum("arrangement-" + {"A": "affine", "R": "block-reversed", "I": "interleaved", "M": "modular-inverse"}[c["arr"][0]])
         if c["l0"] != c["l1"]:
             ctx.stratum("%s/step-%s" % (method, c["kind"]))
             if min(c["left"], c["right"]) == 100:
